@@ -135,7 +135,7 @@ def handleTavg (toks : List String) : Option String := do
   let ids := (List.range (nAvg T W)).map fun (n : Nat) => s!"{ratRint ((n : Rat) + (W : Rat) / 2)}"
   pure (showRat margin ++ " " ++ showFloat cut ++ " " ++ s!"{W} " ++ " ".intercalate (ids ++ outs.reverse))
 
-/-- `boo2d_tcorr T N steps[T] x[T*N]` → `linear time_corr[T]` (double bits).
+/-- `boo2d_tcorr T N steps[T] x[T*N]` → `linear norm0 time_corr[T]` (double bits; norm0 = Σ_i |x[0,i]|², the guard for `results /= results[0]`).
 linear dump (all step differences equal): the double loop; otherwise the log branch
 `Re Σ_i conj(x[0,i]) x[n,i] / Re Σ_i |x[0,i]|²`. -/
 def handleTcorr (toks : List String) : Option String := do
@@ -155,7 +155,9 @@ def handleTcorr (toks : List String) : Option String := do
       (List.range T).map fun k => (acc k / ((cnt k : Nat) : Float)) / (acc 0 / ((cnt 0 : Nat) : Float))
     else
       (List.range T).map fun k => dotRe (α := Float) Cx.re conjF N x k 0 / dotRe (α := Float) Cx.re conjF N x 0 0
-  pure ((if linear then "1 " else "0 ") ++ " ".intercalate (vals.map showFloat))
+  -- guard value: the un-normalised lag-0 value the code divides by (`results /= results[0]`)
+  let norm0 : Float := dotRe (α := Float) Cx.re conjF N x 0 0
+  pure ((if linear then "1 " else "0 ") ++ showFloat norm0 ++ " " ++ " ".intercalate (vals.map showFloat))
 
 /-- `boo2d_scorr T N rdelta Lx Ly H[4] ppp[2] pos[T*2N] x[T*N]`
 → `margin maxbin (r gr gA)[maxbin]` (double bits).  Bins, minimum image and `maxbin` are decided in
